@@ -173,6 +173,9 @@ class Coverage:
                 'lines': sorted('%s:%d' % l for l in self.lines)}
 
 
+FUNCTION_LINES = set()      # filled by inventory(): lines inside functions
+
+
 def inventory():
     """All functions and executable lines of REPO/yatiml (static)."""
     root = os.path.join(env.REPO, 'yatiml')
@@ -193,6 +196,8 @@ def inventory():
                 for _, _, ln in c.co_lines():
                     if ln is not None and ln != c.co_firstlineno:
                         lines.add((name, ln))
+                        if c.co_flags & 1:      # a function, not a class body
+                            FUNCTION_LINES.add((name, ln))
             for k in c.co_consts:
                 if hasattr(k, 'co_code'):
                     stack.append(k)
@@ -483,6 +488,8 @@ def run_property(prop, tier, seed):
         'anchor_lines_total': len(anchor_total),
         'anchor_lines_missed': sorted(
             '%s:%d' % p for p in (anchor_total - anchor_hit))[:60],
+        'yatiml_function_lines_reached': len(FUNCTION_LINES & hit_pairs),
+        'yatiml_function_lines_total': len(FUNCTION_LINES),
         'known_findings_seen': sorted(listed),
         'new_violation_keys': sorted(new),
         'problems': problems,
@@ -503,6 +510,20 @@ def run_property(prop, tier, seed):
         'wall_s': round(wall, 2),
         'violations': len(new),
     }
+    # every executable line of yatiml this run reached / did not reach, for
+    # tools/linecov.py (union over all checks; git-ignored scratch)
+    try:
+        os.makedirs(os.path.join(env.VERIF, '.work', 'linecov'), exist_ok=True)
+        with open(os.path.join(env.VERIF, '.work', 'linecov',
+                               '%s-%s.json' % (prop, tier)), 'w') as f:
+            json.dump({'repo': env.REPO,
+                       'hit': sorted('%s:%d' % p
+                                     for p in FUNCTION_LINES & hit_pairs),
+                       'missed': sorted('%s:%d' % p
+                                        for p in FUNCTION_LINES - hit_pairs)}, f)
+    except OSError:
+        pass
+
     os.makedirs(os.path.join(env.VERIF, 'evidence'), exist_ok=True)
     if env.REPO == '/repo' or os.environ.get('VERIF_WRITE_EVIDENCE'):
         epath = os.path.join(env.VERIF, 'evidence', '%s.json' % prop)
